@@ -6,7 +6,8 @@ LEVEL = "model_checking"
 
 def run(ctx):
   return _shared.run_clauses(ctx, "C08.", lambda e: e['k'] in ('B', 'F'),
-                             "after every successful call and every rollback: Meta!ExpectedSchema(observed _grist_Tables/_grist_Tables_column) = logged engine.schema, no orphan column records")
+                             "after every successful call and every rollback: Meta!ExpectedSchema(observed _grist_Tables/_grist_Tables_column) = logged engine.schema, no orphan column records",
+                             corpora=_shared.BOTH)
 
 
 def replay(ctx, data):
